@@ -357,8 +357,11 @@ fn run_evsys<D: KeyDev>(ctx: &mut Ctx, label: &str, check_mods: bool, check_ret:
     }
     let refs: BTreeSet<RState> = g.states.iter().map(|s| s.1).collect();
     let tags = if layout_change && D::HAS_LAYOUT_CHANGE { 2 } else { 1 };
-    ctx.expect(refs.len() == 512 * 2 * tags, &format!("{}: all {} reference states (512 modifier values x 2 modes x {} layout tags) visited (saw {})", label, 1024 * tags, tags, refs.len()));
-    ctx.expect(g.edges == g.states.len() as u64 * sys.alphabet.len() as u64, &format!("{}: transitions == states x |alphabet|", label));
+    if g.capped {
+        ctx.cap_hit(label, 100_000);
+    }
+    ctx.expect(g.capped || refs.len() == 512 * 2 * tags, &format!("{}: all {} reference states (512 modifier values x 2 modes x {} layout tags) visited (saw {})", label, 1024 * tags, tags, refs.len()));
+    ctx.expect(g.capped || g.edges == g.states.len() as u64 * sys.alphabet.len() as u64, &format!("{}: transitions == states x |alphabet|", label));
     ctx.states += g.states.len() as u64;
     ctx.transitions += g.edges;
     ctx.traces_validated += g.edges;
